@@ -203,15 +203,15 @@ def build_inputs(ctx):
         sweep = [(1, 1), (1, 14), (2, rnd.randint(2, 13)), (3, rnd.randint(2, 13)), (7, 1), (30, rnd.randint(2, 13)), (100, 1),
                  (100, rnd.randint(2, 14))]
     else:
-        ps = configs.grid(ctx, 600)
-        sweep = [(life, cy) for life in (1, 2, 3, 4, 5, 7, 10, 20, 30, 40, 50, 75, 100) for cy in (1, 2, 3, 5, 8, 14)]
+        ps = configs.grid(ctx, 400)
+        sweep = [(life, cy) for life in (1, 2, 3, 4, 5, 7, 10, 20, 30, 40, 50, 75, 100) for cy in (1, 2, 5, 14)]
     for i, p in enumerate(ps):
         out.append((f'grid{i}', runner.params_to_text(p)))
     for life, cy in sweep:
         tspy = rnd.choice([1, 2, 4, 12]) if life < 60 else rnd.choice([1, 2])
         p = configs.synthetic(rnd, resmodel=4, life=life, cy=cy, tspy=tspy, addons=False)
         out.append((f'sweep-life{life}-cy{cy}-tspy{tspy}', runner.params_to_text(p)))
-    for i in range(ctx.n(4, 60)):
+    for i in range(ctx.n(4, 40)):
         p = configs.synthetic(rnd, resmodel=rnd.choice([3, 4]), addons=False)
         out.append((f'units{i}', runner.params_to_text(p) + unit_override_lines(i)))
     return out
